@@ -35,7 +35,7 @@ CHECKS["C02"] = ("model_checking",
  "DESIGN.md §4 C02")
 CHECKS["C07"] = ("fault_enumeration",
  "exhaustive enumeration of cancellation points (poll-counting context) and of cancel-between-calls histories",
- "For ~85 finite and infinite programs x 3 inputs every cancellation point k = 0..N is enumerated, where k is the index of the VM's poll of ctx.Done() driven by a poll-counting context (no timers, fully deterministic; N = the run's own length + 2, or a horizon of 3000, thorough 12000, for infinite programs). Each case checks: values before the cancellation are exactly the prefix the uncancelled trace had produced by poll k, the Next that polled returns the context's error without executing another instruction, the iterator is exhausted afterwards and never polls again. Additionally cancellation between two Next calls after every output, the iterator lifecycle (false forever, no panic after an error, cancellation after exhaustion) over the corpus and an error grammar, and the entry points that must report problems as error values. A program that never reaches a poll is caught by a per-case watchdog and reported as a violation.",
+ "For ~85 finite and infinite programs x 3 inputs every cancellation point k = 0..N is enumerated, where k is the index of the VM's poll of ctx.Done() driven by a poll-counting context (no timers, fully deterministic; N = the run's own length + 2, or a horizon of 3000, thorough 12000, for infinite programs); the same enumeration runs over every plain-query case of cli/test.yaml on its own inputs (horizon 400, thorough 2500). Each case checks: values before the cancellation are exactly the prefix the uncancelled trace had produced by poll k, the Next that polled returns the context's error without executing another instruction, the iterator is exhausted afterwards and never polls again. Additionally cancellation between two Next calls after every output, the iterator lifecycle (false forever, no panic after an error, cancellation after exhaustion) over the corpus and an error grammar, and the entry points that must report problems as error values. A program that never reaches a poll is caught by a per-case watchdog and reported as a violation.",
  "Trusted: the VM polls ctx.Done() once per instruction (that is what makes a poll index a cancellation point); steps that do not poll at all are only visible through the between-calls histories and the hang watchdog.",
  "DESIGN.md §4 C07")
 CHECKS["C20"] = ("exploration",
